@@ -234,6 +234,21 @@ fn color_item(src: &mut Src, base: usize) -> String {
 pub const SGR_SIMPLE: [usize; 32] = [0, 1, 2, 3, 4, 5, 7, 9, 21, 22, 23, 24, 25, 27, 29, 30, 31, 37, 39, 40, 44, 47, 49, 90, 97, 100, 107, 33, 42, 95, 103, 36];
 pub const SGR_UNKNOWN: [usize; 16] = [6, 8, 10, 11, 20, 26, 28, 50, 51, 89, 98, 99, 108, 200, 1000, 65535];
 
+/// is `code` (a single-part SGR parameter) outside the implemented set?
+pub fn sgr_is_unknown(code: usize) -> bool {
+    !matches!(code, 0..=5 | 7 | 9 | 21..=25 | 27 | 29 | 30..=49 | 90..=97 | 100..=107)
+}
+
+/// any unknown SGR code: every unimplemented value below 120 is equally likely, plus a few
+/// big ones (index-based: a used-up byte source returns 0 forever, so no rejection loops)
+pub fn sgr_unknown(src: &mut Src) -> usize {
+    if src.chance(1, 8) {
+        return *src.pick(&[200usize, 255, 256, 1000, 65535]);
+    }
+    let pool: Vec<usize> = (0..120).filter(|c| sgr_is_unknown(*c)).collect();
+    *src.pick(&pool)
+}
+
 /// one well-formed SGR control with `n` items (at most 32 parameters in total)
 pub fn sgr(src: &mut Src, g: &G, unknown: bool) -> String {
     let n = match src.below(8) {
@@ -253,7 +268,7 @@ pub fn sgr(src: &mut Src, g: &G, unknown: bool) -> String {
                 let cost = s.split(';').count();
                 (s, cost)
             }
-            2 if unknown => (src.pick(&SGR_UNKNOWN).to_string(), 1),
+            2 if unknown => (sgr_unknown(src).to_string(), 1),
             3 => (if src.chance(1, 2) { String::new() } else { "0".into() }, 1),
             _ => (src.pick(&SGR_SIMPLE).to_string(), 1),
         };
